@@ -512,7 +512,7 @@ def run_shard(desc, ctx):
             for _ in range(desc["n"]):
                 r = rng.random()
                 if r < 0.5:
-                    spec = gen_single(rng, palette(rng))
+                    spec = G.maybe_prior(rng, gen_single(rng, palette(rng)))
                 elif r < 0.8:
                     spec = gen_multi(rng, [palette(rng) for _ in range(rng.randint(2, 4))])
                 else:
